@@ -88,6 +88,14 @@ def variants(kinds):
                     out.append(("B", f"{rel}:{q}: rename local `{v}`", rel, (q, v)))
             if "C" in kinds and len(fn.body) > 0:
                 out.append(("C", f"{rel}:{q}: leading pass", rel, (q, None)))
+            if "D" in kinds and len(fn.body) > 0:
+                out.append(("D", f"{rel}:{q}: leading print()", rel, (q, None)))
+            if "E" in kinds:
+                rets = [n for n in ast.walk(fn) if isinstance(n, ast.Return) and n.value is not None and not isinstance(n.value, (ast.Constant, ast.Name))]
+                nested = any(isinstance(n, (ast.FunctionDef, ast.AsyncFunctionDef, ast.Lambda)) for n in ast.walk(fn) if n is not fn)
+                gen = any(isinstance(n, (ast.Yield, ast.YieldFrom)) for n in ast.walk(fn))
+                if rets and not nested and not gen:
+                    out.append(("E", f"{rel}:{q}: return value through a local", rel, (q, None)))
     return out
 
 
@@ -107,6 +115,22 @@ def make_variant(sc, kind, rel, arg):
         if qq == q:
             if kind == "B":
                 Rename(v, v + "_renamed").visit(fn)
+            elif kind == "D":
+                doc = 1 if (fn.body and isinstance(fn.body[0], ast.Expr) and isinstance(fn.body[0].value, ast.Constant) and isinstance(fn.body[0].value.value, str)) else 0
+                fn.body.insert(doc, ast.parse("print('trace')").body[0])
+            elif kind == "E":
+                class Ret(ast.NodeTransformer):
+                    def visit_FunctionDef(self, node):
+                        if node is fn:
+                            self.generic_visit(node)
+                        return node
+                    def visit_Return(self, node):
+                        if node.value is None or isinstance(node.value, (ast.Constant, ast.Name)):
+                            return node
+                        a = ast.Assign(targets=[ast.Name(id="result_value", ctx=ast.Store())], value=node.value)
+                        r = ast.Return(value=ast.Name(id="result_value", ctx=ast.Load()))
+                        return [ast.copy_location(a, node), ast.copy_location(r, node)]
+                Ret().visit(fn)
             else:
                 doc = 1 if (fn.body and isinstance(fn.body[0], ast.Expr) and isinstance(fn.body[0].value, ast.Constant) and isinstance(fn.body[0].value.value, str)) else 0
                 fn.body.insert(doc, ast.Pass())
@@ -143,7 +167,7 @@ def main():
     args = sys.argv[1:]
     props = ALL
     limit = None
-    kinds = [a for a in args if a in ("A", "B", "C")] or ["A", "B", "C"]
+    kinds = [a for a in args if a in ("A", "B", "C", "D", "E")] or ["A", "B", "C", "D", "E"]
     for i, a in enumerate(args):
         if a == "--props":
             props = args[i + 1].split(",")
